@@ -52,6 +52,7 @@ import (
 
 const (
 	v15SigConn400   = "connspecific-answered-400"
+	v15SigBadCL     = "bad-content-length-reaches-handler"
 )
 
 func TestVerifC15(t *testing.T) {
@@ -86,6 +87,7 @@ type v15Stream struct {
 	responded  bool
 	status     int
 	pendingRej bool // cs: response or reset expected eventually
+	clBad      bool // the request's content-length is malformed (RFC 9113 8.1.1 / RFC 9110 8.6)
 }
 
 type v15Conn struct {
@@ -186,6 +188,9 @@ func (c *v15Conn) collect(sortStarts bool) {
 			c.o.Stat("ev:handler-start")
 			if s.cls != "ok" {
 				c.o.Fail("", fmt.Sprintf("the handler was started for stream %d whose request is %q (malformed / connection-specific)", sid64, s.cls))
+			} else if s.clBad {
+				c.o.Stat("ev:bad-content-length-reached-handler")
+				c.o.Fail(v15SigBadCL, fmt.Sprintf("the handler was started for stream %d whose request carries a malformed content-length (not a number, conflicting values, or non-zero on a request that ends with HEADERS)", sid64))
 			}
 		default:
 			c.o.Stat("ev:handler-finish")
@@ -409,6 +414,33 @@ func v15DecFields(s string) ([]v15Field, bool) {
 	return fs, true
 }
 
+// v15ClBad: is the content-length of the request malformed? Every value must be a non-empty string of
+// digits, all values must be equal, and a request that ends with its HEADERS frame has no content.
+func v15ClBad(fs []v15Field, endStream bool) bool {
+	var vals []string
+	reg := false
+	for _, f := range fs {
+		if !strings.HasPrefix(f.n, ":") {
+			reg = true
+		}
+		if reg && f.n == "content-length" {
+			vals = append(vals, f.v)
+		}
+	}
+	for _, v := range vals {
+		if v == "" || strings.Trim(v, "0123456789") != "" {
+			return true
+		}
+		if v != vals[0] {
+			return true
+		}
+		if endStream && strings.Trim(v, "0") != "" {
+			return true
+		}
+	}
+	return false
+}
+
 func v15u32(s string) (uint32, bool) {
 	v, err := strconv.ParseUint(s, 10, 32)
 	return uint32(v), err == nil
@@ -472,6 +504,7 @@ func (c *v15Conn) addFrame(tok string) bool {
 		if _, known := c.streams[sid]; !known {
 			s := c.stream(sid)
 			s.cls = f[3]
+			s.clBad = v15ClBad(fs, f[2] == "1")
 			alive := !c.dead && !c.gaSeen
 			switch f[3] {
 			case "mw", "mp":
